@@ -7,6 +7,7 @@ CONSTANTS
   MaxDamage = 1
   DamageKinds = {"len"}
   PayZero = {FALSE, TRUE}
+  EndOnBadHeader = FALSE
   ClearBehind = FALSE
 INIT Init
 NEXT Next
